@@ -63,11 +63,7 @@ theorem wf_step (d : Doc) (op : Op) (h : WF d) (d' : Doc) (out : Out)
       exact wf_densePass (pagePass d) s (pagePass_sorted d h.2) _ hr
     · cases hs
     · cases hs
-  | delPages n =>
-    simp only [step] at hs
-    split at hs
-    · rename_i d2 hr; cases hs; exact (wf_deletePages d n h _ hr).1
-    · cases hs
+  | delPages n => simp only [step] at hs; cases hs; exact (wf_deletePages d n h).1
   | addContent p c => simp only [step] at hs; exact wf_addPageContents d p c h d' out hs
   | removeAnnot id =>
     simp only [step] at hs; have e := Outcome.ok.inj hs
@@ -413,11 +409,7 @@ theorem len_step (d : Doc) (op : Op) (h : LenInv d) (hg : opLenGuard op) (d' : D
     · rename_i d2 hr; cases hs; exact lenInv_densePass (pagePass d) s (lenInv_pagePass d h) _ hr
     · cases hs
     · cases hs
-  | delPages n =>
-    simp only [step] at hs
-    split at hs
-    · rename_i d2 hr; cases hs; exact lenInv_deletePages d n h _ hr
-    · cases hs
+  | delPages n => simp only [step] at hs; cases hs; exact lenInv_deletePages d n h
   | addContent p c => simp only [step] at hs; exact lenInv_addPageContents d p c h d' out hs
   | removeAnnot id =>
     simp only [step] at hs; have e := Outcome.ok.inj hs
